@@ -12,7 +12,7 @@ from ..symex import Arr, Interp, Opq, opaque_atom, tov
 from . import c06, c16
 
 LEVEL = "other"
-TECHNIQUE = "exact polynomial identities on the reference shape functions, symbolic extraction of the basis evaluators and Piola map, loop-shape lint of the local-to-global inversion, dispatch-totality lint, zero-multiplier aliasing lint"
+TECHNIQUE = "exact polynomial identities on the reference shape functions, symbolic extraction of the basis evaluators and Piola map, loop-shape lint of the local-to-global inversion, dispatch-totality lint, zero-multiplier aliasing lint; finite-domain abstract execution of the RWG and P1 numbering loops (which edge / vertex gets a dof under each option), index-space typing of coarse vs barycentric element tables"
 LEVEL_TEXT = (
     "Decides the conformity conditions that live on the reference element and in the evaluators: P1 reference "
     "functions are nodal and sum to one, RWG reference functions have normal flux 1 through their own edge and 0 "
